@@ -63,7 +63,7 @@ def main():
             d = os.path.join(tmp, pid)
             os.makedirs(d)
             env = dict(os.environ, PYTHONPATH=f"{VERIF}:{src}", VMON_REACH_DIR=d)
-            p = subprocess.run([sys.executable, "-m", "vmon.run", pid, "--tier", a.tier, "--seed", "0", "--no-evidence"], cwd=VERIF, env=env, capture_output=True, text=True)
+            p = subprocess.run(["/venv/bin/python", "-m", "vmon.run", pid, "--tier", a.tier, "--seed", "0", "--no-evidence"], cwd=VERIF, env=env, capture_output=True, text=True)
             seen = set()
             for f in glob.glob(os.path.join(d, "*.json")):
                 seen |= {tuple(x) for x in json.load(open(f))}
